@@ -52,6 +52,16 @@ Combos(it, vars, parts, phs, k) ==      \* k = index of the next name in phs; re
                         Concat([j \in 1..Len(lk.vals) |-> [r \in 1..Len(rest.out) |->
                             [parts |-> pre \o ValParts(lk.vals[j]) \o rest.out[r].parts, phs |-> rest.out[r].phs]]])]
 
+\* the parts of an expanded regular expression, recovered from its text and its placeholder names
+RePartsPH(t, phs) ==
+    LET RECURSIVE Go(_, _)
+        Go(i, k) ==
+            IF i > Len(t) THEN <<>>
+            ELSE IF /\ k <= Len(phs) /\ t[i] = CH_PCT /\ i + Len(phs[k]) + 1 <= Len(t)
+                    /\ SubSeq(t, i + 1, i + Len(phs[k])) = phs[k] /\ t[i + Len(phs[k]) + 1] = CH_PCT
+                 THEN <<PH>> \o Go(i + Len(phs[k]) + 2, k + 1)
+            ELSE <<IF t[i] = CH_STAR THEN STAR ELSE IF t[i] = CH_QM THEN QM ELSE t[i]>> \o Go(i + 1, k)
+    IN  Go(1, 1)
 PHName(v) == v.phs
 AnyHandled(it, v) == \E k \in 1..Len(v.phs) : Handled(it, v.phs[k])
 
@@ -65,7 +75,14 @@ ItemOnValue(it, vars, v) ==      \* [st, vals]
         ELSE IF ~AnyHandled(it, v) THEN [st |-> "ok", vals |-> <<v>>]
         ELSE LET c == Combos(it, vars, v.parts, v.phs, 1) IN
              [st |-> c.st, vals |-> [r \in 1..Len(c.out) |-> [v EXCEPT !.parts = c.out[r].parts, !.phs = c.out[r].phs]]]
-    ELSE IF v.t = "re" /\ v.phs # <<>> THEN [st |-> "unspec", vals |-> <<>>]     \* regex + pipeline: not modelled
+    ELSE IF v.t = "re" /\ v.phs # <<>> THEN
+        \* a regular expression: value lists splice their texts into the expression; what a wildcard
+        \* or a query expression means inside a regular expression is not documented
+        (IF ~AnyHandled(it, v) THEN [st |-> "ok", vals |-> <<v>>]
+         ELSE IF it.type # "value" THEN [st |-> "unspec", vals |-> <<>>]
+         ELSE LET c == Combos(it, vars, RePartsPH(v.s, v.phs), v.phs, 1) IN
+              [st |-> c.st, vals |-> [r \in 1..Len(c.out) |->
+                    [v EXCEPT !.s = ReText(c.out[r].parts, c.out[r].phs), !.phs = c.out[r].phs]]])
     ELSE [st |-> "ok", vals |-> <<v>>]
 
 RECURSIVE PipeOnValues(_, _, _, _)
